@@ -7,7 +7,7 @@ READ = "tough::Repository::read_target"
 
 
 def run(chk, prog):
-    chk.rules_live = ["R1", "R2", "R3", "R4", "R5"]
+    chk.rules_live = ["R1", "R2", "R3", "R4", "R5", "R6"]
     chk.explanation = (
         "Who-may-write + dominance rules over the MIR of Repository::save_target (and its closures): the "
         "only mutating file-system calls are create_dir_all, NamedTempFile::new_in, writes to that temp "
@@ -16,7 +16,9 @@ def run(chk, prog):
         "Err item; every effect is dominated by the true edge of parent(outdir.join(name)).starts_with("
         "canonicalize(outdir)), the temp file lives in the destination's own directory; the file name "
         "originates from TargetName::resolved (optionally hex-digest prefixed), never from raw; "
-        "clean_name returns a normalised name only after refusing '..', '' and names resolving to '/'.")
+        "clean_name returns a normalised name only after refusing '..', '' and names resolving to '/'. "
+        "R6: 'whose bytes match the signed digest' rests on the stream save_target consumes: C06's "
+        "read_target obligations (and through them the adapters and the target lookup) are re-evaluated.")
     chk.not_decided = ["path normalisation arithmetic of typed_path", "symlinks inside outdir",
                        "what an observer sees between syscalls (follows from temp+rename given POSIX rename)"]
     chk.assumptions = ["tempfile::NamedTempFile::persist is rename(2); drop deletes the temp file",
@@ -150,6 +152,9 @@ def run(chk, prog):
                     "the saved file's name is built from %s; only TargetName::resolved() (optionally prefixed by "
                     "the hex digest) may reach Path::join — the raw name may contain '..'" % shapes, ctx.site(bb))
     r5_clean_name(chk, prog)
+    from .c06 import SubCheck
+    from . import c06
+    c06.run(SubCheck(chk, "R6"), prog)
 
 
 def r5_clean_name(chk, prog):
